@@ -96,6 +96,115 @@ def site_classes(ctx, body, b, operands):
 import props.anchors as anchors
 
 
+def pins(ctx, chk, rid):
+    """shared by C20 (E3) and C10 (A10.10)"""
+    O, P, L = ctx.O, ctx.P, ctx.L
+    # ---------------- E3 pins
+    table = {
+        "rawdb::reader::Reader": ("MMAP", "a Reader's offsets are valid only while the mapping cannot be replaced"),
+        "vecdb::variants::raw::sources::io::RawIoSource": ("META", "absolute file offsets are valid only while the region cannot be relocated"),
+        "vecdb::variants::compressed::sources::io::CompressedIoSource": ("META", "absolute file offsets are valid only while the region cannot be relocated"),
+    }
+    for adt, (cls, why) in table.items():
+        a = P.adts.get(adt)
+        if a is None:
+            raise AnchorMissing("%s not found" % adt)
+        held = set()
+        for f in a["variants"][0]["fields"]:
+            for m, payload, ref in f["guards"]:
+                if not ref:
+                    held.add(L.T.classify(payload))
+        chk.oblige(rid + " %s pins %s for its lifetime (owns a %s read guard)" % (adt.split("::")[-1], cls, cls), cls in held,
+                   detail={"guard_classes": sorted(held)}, key=rid + "|pin|%s|%s" % (adt.split("::")[-1], cls), msg=why)
+    for adt in ("vecdb::variants::raw::sources::reader::VecReader", "vecdb::variants::raw::sources::mmap::RawMmapSource",
+                "vecdb::variants::compressed::sources::mmap::CompressedMmapSource"):
+        a = P.adts.get(adt)
+        if a is None:
+            raise AnchorMissing("%s not found" % adt)
+        owns = any("rawdb::reader::Reader" in f["ty"] and not f["ty"].startswith("&") for f in a["variants"][0]["fields"])
+        chk.oblige(rid + " %s owns the Reader its cached pointer comes from" % adt.split("::")[-1], owns,
+                   key=rid + "|owns-reader|%s" % adt.split("::")[-1],
+                   msg="a cached pointer into the mapping must not outlive the Reader that keeps the mapping in place")
+
+
+def live_reader_at_reads(ctx, chk, rid):
+    """every pointer read of mapped bytes happens while the mapping is pinned: a Reader (MMAP read guard) is live in
+    the function, or `self` owns one, or a `&Reader` parameter is in scope (shared by C20, C09, C10)."""
+    O, P, L = ctx.O, ctx.P, ctx.L
+    mapped = re.compile(r"rawdb::reader::Reader::(prefixed|unchecked_read|read|read_all)$|rawdb::region::Region::create_reader$")
+    n = 0
+    for bid, body in sorted(P.bodies.items()):
+        if body.krate != "vecdb" or NOT_FILE_BYTES.search(bid) and "read_from_ptr" not in bid:
+            continue
+        if re.search(r"::read_from_ptr$", bid):
+            continue
+        for b, t in body.calls():
+            nm = names(t)
+            if not any(x.endswith("::read_from_ptr") or x == "core::slice::raw::from_raw_parts" for x in nm):
+                continue
+            sl = O.slice_back(body, t["args"][0])
+            from_map = any(mapped.search(c) for c in sl["calls"])
+            if not from_map:
+                for c in sl["calls"]:
+                    if c in P.bodies and any(mapped.search(x) for x in O.reach(c)):
+                        from_map = True
+            self_owned = False
+            if body.arg_count >= 1:
+                st = re.sub(r"^&(mut )?", "", body.locals[1]["ty"]).split("<")[0]
+                adt = P.adts.get(st)
+                if adt and any("rawdb::reader::Reader" in f["ty"] and not f["ty"].startswith("&")
+                               for f in adt["variants"][0]["fields"]):
+                    self_owned = "data" in sl["fields"] or 1 in sl["params"]
+            if not from_map and not self_owned:
+                continue
+            n += 1
+            held = any(c == "MMAP" for c, m in O.held_classes(body, b))
+            rparam = any("rawdb::reader::Reader" in body.locals[l]["ty"] and body.locals[l]["ty"].startswith("&")
+                         for l in range(1, body.arg_count + 1))
+            how = "Reader live in the function" if held else ("self owns the Reader" if self_owned else (
+                "&Reader parameter" if rparam else None))
+            chk.oblige("%s %s: pointer read of mapped bytes at %s while the mapping is pinned (%s)" % (
+                rid, _fn(bid), t.get("span"), how or "NO READER ALIVE"), how is not None,
+                key="%s|%s|read-without-live-reader" % (rid, _fn(bid)),
+                msg="bytes are fetched through a pointer into the mapping after the Reader that pinned it was dropped "
+                    "(file growth can replace and unmap the mapping; relocation can move the region)")
+    if n < 8:
+        raise AnchorMissing("expected >= 8 pointer reads of mapped bytes in vecdb, found %d" % n)
+
+
+def entry_bytes_recomputed(ctx, chk, rid):
+    """compressed write(): a region write that starts at a published page's `start` rewrites that page, so the entries
+    pushed afterwards must not reuse the old entry's byte count; only an append at Page::end() may extend it."""
+    O, P = ctx.O, ctx.P
+    from props.c09 import CMP_WRITE
+    cw = O.body(CMP_WRITE)
+    tws = O.sites(cw, M(r"rawdb::region::Region::truncate_write"))
+    mk = M(r"vecdb::variants::compressed::inner::page::Page::(raw|compressed)")
+    for b in tws:
+        t = cw.blocks[b]["term"]
+        sl = O.slice_back(cw, t["args"][1])
+        from_start = "start" in sl["fields"]
+        if not from_start:
+            continue
+        reused = []
+        for p in O.sites(cw, mk):
+            if not O.can_reach(cw, b, [p]):
+                continue
+            pt = cw.blocks[p]["term"]
+            if len(pt["args"]) > 1 and op_place(pt["args"][1]) is not None:
+                # direct arithmetic dependence (through casts / sums only, not through decoding the old page)
+                import decode
+                D = getattr(ctx, "_decode", None) or decode.Decode(P)
+                ctx._decode = D
+                if _mentions_field(_arith_leaves(cw, D, pt["args"][1]), "bytes"):
+                    reused.append(pt.get("span"))
+        chk.oblige("%s compressed write: the rewrite starting at a page's `start` (%s) recomputes the byte count of the "
+                   "entries it pushes" % (rid, t.get("span")), not reused, detail={"entries_reusing_old_bytes": reused},
+                   key="%s|compressed-write|stale-byte-count" % rid,
+                   msg="a page entry built from the old entry's byte count after the page was rewritten from its start "
+                       "describes bytes beyond what was written (readers slice past the region's valid data)")
+
+
 def run(ctx, chk):
     O, P, L = ctx.O, ctx.P, ctx.L
     # ---------------- E1
@@ -241,32 +350,9 @@ def run(ctx, chk):
                    "PHYS" in cl, detail={"classes": sorted(cl)}, key="E2r|%s|apply_rollback-unclamped" % kind,
                    msg="rollback publishes a stored length that can exceed what is on disk; read-only clones and point "
                        "readers then read past the region's length")
-    # ---------------- E3 pins
-    pins = {
-        "rawdb::reader::Reader": ("MMAP", "a Reader's offsets are valid only while the mapping cannot be replaced"),
-        "vecdb::variants::raw::sources::io::RawIoSource": ("META", "absolute file offsets are valid only while the region cannot be relocated"),
-        "vecdb::variants::compressed::sources::io::CompressedIoSource": ("META", "absolute file offsets are valid only while the region cannot be relocated"),
-    }
-    for adt, (cls, why) in pins.items():
-        a = P.adts.get(adt)
-        if a is None:
-            raise AnchorMissing("%s not found" % adt)
-        held = set()
-        for f in a["variants"][0]["fields"]:
-            for m, payload, ref in f["guards"]:
-                if not ref:
-                    held.add(L.T.classify(payload))
-        chk.oblige("E3 %s pins %s for its lifetime (owns a %s read guard)" % (adt.split("::")[-1], cls, cls), cls in held,
-                   detail={"guard_classes": sorted(held)}, key="E3|pin|%s|%s" % (adt.split("::")[-1], cls), msg=why)
-    for adt in ("vecdb::variants::raw::sources::reader::VecReader", "vecdb::variants::raw::sources::mmap::RawMmapSource",
-                "vecdb::variants::compressed::sources::mmap::CompressedMmapSource"):
-        a = P.adts.get(adt)
-        if a is None:
-            raise AnchorMissing("%s not found" % adt)
-        owns = any("rawdb::reader::Reader" in f["ty"] and not f["ty"].startswith("&") for f in a["variants"][0]["fields"])
-        chk.oblige("E3 %s owns the Reader its cached pointer comes from" % adt.split("::")[-1], owns,
-                   key="E3|owns-reader|%s" % adt.split("::")[-1],
-                   msg="a cached pointer into the mapping must not outlive the Reader that keeps the mapping in place")
+    pins(ctx, chk, "E3")
+    live_reader_at_reads(ctx, chk, "E6")
+    entry_bytes_recomputed(ctx, chk, "E4b")
     # ---------------- E5 the source of truncated values for change records consults the *previous* overlay
     csr = "vecdb::variants::raw::inner::read_write::ReadWriteRawVec::<I, T, S>::collect_stored_range"
     O.body(csr)
@@ -290,6 +376,33 @@ def run(ctx, chk):
     chk.sample({"rule": "E1", "sites": n_sites, "by_kind": by_kind})
     chk.assumptions.append("pointer reads behind Reader::prefixed are bounded by index guards, not by the slice: the class "
                            "of the guarding length is decided, not the multiplication index * SIZE_OF_T + HEADER_OFFSET")
+
+
+def _arith_leaves(body, D, op, depth=0):
+    """expression tree of an operand through casts of any kind, copies and +,-,* only."""
+    if depth > 12:
+        return ("?",)
+    pl = op_place(op)
+    if pl is None:
+        return D.expr(body, op)
+    if pl["p"]:
+        return D.expr(body, op)
+    d = D.single_def(body, pl["l"])
+    if d and d[0] == "assign":
+        rv = d[3]
+        if rv["k"] in ("use", "cast") and rv["ops"]:
+            return _arith_leaves(body, D, rv["ops"][0], depth + 1)
+        if rv["k"] == "bin":
+            return (rv["op"], _arith_leaves(body, D, rv["ops"][0], depth + 1), _arith_leaves(body, D, rv["ops"][1], depth + 1))
+    return D.expr(body, op)
+
+
+def _mentions_field(e, name):
+    if isinstance(e, tuple):
+        if e and e[0] == "f" and len(e) == 3 and isinstance(e[2], tuple) and e[2] and e[2][-1] == name:
+            return True
+        return any(_mentions_field(x, name) for x in e)
+    return False
 
 
 def _dom_switch(body, b):
